@@ -126,6 +126,12 @@ let () =
             match !st with
             | None -> print_endline "DEAD"
             | Some s -> (
+                let t =
+                  match t with
+                  | ("XDATA" | "XREADY" | "XDISCONNECT" | "XSHADOW") :: r ->
+                      String.sub (List.hd t) 1 (String.length (List.hd t) - 1) :: r
+                  | _ -> t
+                in
                 let op =
                   match t with
                   | [ "CONNECT"; client; clean; dyn; amax; will ] ->
